@@ -130,23 +130,27 @@ class PostDom:
     """post-dominators with a virtual exit joining all blocks without successors
     (return, unreachable, diverging calls, resume)"""
 
-    def __init__(self, body, exits=None):
+    def __init__(self, body, exits=None, avoid_edges=()):
         self.body = body
         n = len(body.blocks)
         self.exit = n
+        avoid_edges = set(avoid_edges)
+        self.avoid_edges = avoid_edges
         if exits is None:
-            exits = [i for i in range(n) if not body.succs(i) and not body.is_cleanup(i)]
+            # `unreachable` terminators are not exits: no execution ends there
+            exits = [i for i in range(n) if not body.succs(i) and not body.is_cleanup(i)
+                     and body.term(i)[0] != "unreach"]
         self.exits = set(exits)
 
         def succs(b):
             if b == self.exit:
                 return list(self.exits)
-            return body.preds(b)
+            return [p for p in body.preds(b) if (p, b) not in avoid_edges]
 
         def preds(b):
             if b == self.exit:
                 return []
-            out = list(body.succs(b))
+            out = [s for s in body.succs(b) if (b, s) not in avoid_edges]
             if b in self.exits:
                 out.append(self.exit)
             return out
@@ -166,13 +170,15 @@ class PostDom:
             b = nb
 
 
-def control_dependence(body):
+def control_dependence(body, avoid_edges=()):
     """map block -> set of (branch_block, successor) edges it is control dependent on
-    (Ferrante-Ottenstein-Warren via post-dominator tree)."""
-    pd = PostDom(body)
+    (Ferrante-Ottenstein-Warren via post-dominator tree).  Edges in avoid_edges are treated as absent
+    (used to ignore the error exits of `?`)."""
+    avoid_edges = set(avoid_edges)
+    pd = PostDom(body, avoid_edges=avoid_edges)
     cd = {i: set() for i in range(len(body.blocks))}
     for a in range(len(body.blocks)):
-        ss = body.succs(a)
+        ss = [x for x in body.succs(a) if (a, x) not in avoid_edges]
         if len(ss) < 2:
             continue
         for s in ss:
